@@ -58,6 +58,9 @@ pub fn count_scale(spec: &FileSpec, out: &mut crate::runner::Outcome) {
 				if *len > 65536 {
 					classes.push("scale_field_above_64_kib");
 				}
+				if *len > 8 * 1024 * 1024 {
+					classes.push("scale_field_above_8_mib");
+				}
 			}
 			Op::FinishBlock => {}
 		}
